@@ -1,6 +1,8 @@
 mod conc;
 mod extkey;
 mod refgroup;
+mod record;
+mod replay;
 mod rng;
 mod suite;
 mod suites;
@@ -8,23 +10,246 @@ mod tksf;
 mod wire;
 mod world;
 
-use serde_json::json;
+use serde_json::{json, Value};
+use std::collections::HashMap;
+use std::io::{BufRead, Write};
+
+pub struct Args {
+    pub cmd: String,
+    pub kv: HashMap<String, String>,
+}
+impl Args {
+    fn parse() -> Args {
+        let a: Vec<String> = std::env::args().collect();
+        let cmd = a.get(1).cloned().unwrap_or_default();
+        let mut kv = HashMap::new();
+        let mut i = 2;
+        while i < a.len() {
+            if let Some(k) = a[i].strip_prefix("--") {
+                let v = a.get(i + 1).cloned().unwrap_or_default();
+                kv.insert(k.to_string(), v);
+                i += 2;
+            } else {
+                i += 1;
+            }
+        }
+        Args { cmd, kv }
+    }
+    pub fn get(&self, k: &str, d: &str) -> String {
+        self.kv.get(k).cloned().unwrap_or_else(|| d.to_string())
+    }
+    pub fn num(&self, k: &str, d: u64) -> u64 {
+        self.kv.get(k).and_then(|v| v.parse().ok()).unwrap_or(d)
+    }
+}
+
+/// Suite selection: "quick" = the five diagonal suites (every group file exercised) plus two
+/// seed-rotated mixed suites; "all" = the 20 OPRF x KE combinations; "full" = all 28;
+/// or a comma-separated list of substrings of suite names.
+pub fn select_suites<'a>(all: &'a [Box<dyn suite::Suite>], sel: &str, seed: u64) -> Vec<&'a dyn suite::Suite> {
+    let test: Vec<&dyn suite::Suite> = all.iter().filter(|s| s.ksf_kind() == "test").map(|s| s.as_ref()).collect();
+    let diag = |s: &&dyn suite::Suite| {
+        matches!(
+            (s.oprf(), s.ke()),
+            ("ristretto255-SHA512", "ristretto255")
+                | ("P256-SHA256", "P-256")
+                | ("P384-SHA384", "P-384")
+                | ("P521-SHA512", "P-521")
+                | ("ristretto255-SHA512", "Curve25519")
+        )
+    };
+    match sel {
+        "quick" => {
+            let mut v: Vec<&dyn suite::Suite> = test.iter().filter(|s| diag(s)).copied().collect();
+            let mixed: Vec<&dyn suite::Suite> = test.iter().filter(|s| !diag(s)).copied().collect();
+            for k in 0..2 {
+                v.push(mixed[((seed as usize) * 2 + k * 7) % mixed.len()]);
+            }
+            v
+        }
+        "diag" => test.iter().filter(|s| diag(s)).copied().collect(),
+        "all" => test,
+        "full" => all.iter().map(|s| s.as_ref()).collect(),
+        "identity" => all.iter().filter(|s| s.ksf_kind() == "identity").map(|s| s.as_ref()).collect(),
+        "argon2" => all.iter().filter(|s| s.ksf_kind() == "argon2").map(|s| s.as_ref()).collect(),
+        list => all
+            .iter()
+            .filter(|s| list.split(',').any(|p| s.name() == p || (p.len() > 3 && s.name().contains(p))))
+            .map(|s| s.as_ref())
+            .collect(),
+    }
+}
+
+fn read_behaviours(path: &str) -> Vec<Vec<Value>> {
+    let f = std::fs::File::open(path).expect("behaviours file");
+    let mut v = Vec::new();
+    for line in std::io::BufReader::new(f).lines() {
+        let line = line.unwrap();
+        let line = line.trim();
+        if line.is_empty() {
+            continue;
+        }
+        let val: Value = serde_json::from_str(line).expect("behaviour line");
+        v.push(val.as_array().expect("array").clone());
+    }
+    v
+}
 
 fn main() {
+    // panics inside opaque-ke are data (C12); keep the default hook quiet
+    std::panic::set_hook(Box::new(|_| {}));
     let all = suites::all();
-    let args: Vec<String> = std::env::args().collect();
-    if args.len() > 1 && args[1] == "smoke" {
-        for s in &all {
-            let prof = conc::profiles(1, false)[0].clone();
-            let mut w = world::World::new(s.as_ref(), 1, prof);
-            let evs = vec![
-                json!({"ev":"SetupNew","id":1,"tape":1}),
-                json!({"ev":"CRegStart","id":1,"pw":-2,"tape":102}),
-            ];
-            for e in evs {
-                let (e2, o) = w.record(e);
-                println!("{} {} {:?}", s.name(), e2, o.problems);
+    let args = Args::parse();
+    let seed = args.num("seed", 0);
+    match args.cmd.as_str() {
+        "suites" => {
+            for s in &all {
+                println!("{} {:?}", s.name(), s.lens());
             }
+        }
+        "replay" => {
+            let prop = args.get("prop", "C00");
+            let out_path = args.get("out", "");
+            if let Some(rp) = args.kv.get("replay") {
+                // re-execute exactly one recorded failing case
+                let v: Value = serde_json::from_str(&std::fs::read_to_string(rp).expect("replay file")).unwrap();
+                let sname = v["suite"].as_str().unwrap();
+                let s = all.iter().find(|s| s.name() == sname).expect("suite");
+                let p = &v["profile"];
+                let prof = conc::Profile {
+                    pw: p["pw"].as_u64().unwrap() as usize,
+                    cid: p["cid"].as_u64().unwrap() as usize,
+                    ctx: p["ctx"].as_u64().unwrap() as usize,
+                    id: p["id"].as_u64().unwrap() as usize,
+                    seed: p["seed"].as_u64().unwrap(),
+                };
+                let evs = v["behaviour"].as_array().unwrap().clone();
+                let opts = replay::Opts {
+                    sweep: match v["opts"]["sweep"].as_str().unwrap_or("none") { "quick" => replay::Sweep::Quick, "full" => replay::Sweep::Full, _ => replay::Sweep::None },
+                    sweep_fin: v["opts"]["sweep_fin"].as_bool().unwrap_or(false),
+                    shadow_no_reload: v["opts"]["shadow_no_reload"].as_bool().unwrap_or(false),
+                    ext_fail_at: v["opts"]["ext_fail_at"].as_u64().unwrap_or(1) as u32,
+                };
+                let r = replay::run_one(s.as_ref(), &prof, v["run_seed"].as_u64().unwrap(), &evs, &opts);
+                match r.violation {
+                    Some((step, kind, detail)) => {
+                        println!("REPRODUCED step={} kind={} {}", step, kind, detail);
+                        std::process::exit(1);
+                    }
+                    None => {
+                        println!("NOT-REPRODUCED (the behaviour now conforms)");
+                        std::process::exit(0);
+                    }
+                }
+            }
+            let beh = read_behaviours(&args.get("behaviours", ""));
+            let thorough = args.get("tier", "quick") == "thorough";
+            let sel = select_suites(&all, &args.get("suites", "quick"), seed);
+            let mut profiles = conc::profiles(seed, thorough);
+            let np = args.num("profiles", 0) as usize;
+            if np > 0 && np < profiles.len() {
+                profiles.truncate(np);
+            }
+            let job = replay::Job {
+                behaviours: &beh,
+                suites: sel.clone(),
+                profiles: profiles.clone(),
+                run_seed: seed,
+                threads: args.num("threads", 12) as usize,
+                per_behaviour: args.num("per-behaviour", 0) as usize,
+                max_violations: 20,
+                opts: replay::Opts {
+                    sweep: match args.get("sweep", "none").as_str() { "quick" => replay::Sweep::Quick, "full" => replay::Sweep::Full, _ => replay::Sweep::None },
+                    sweep_fin: args.get("sweep-fin", "no") == "yes",
+                    shadow_no_reload: args.get("shadow-no-reload", "no") == "yes",
+                    ext_fail_at: args.num("ext-fail-at", 1) as u32,
+                },
+            };
+            let opts_json = json!({"sweep": args.get("sweep", "none"), "sweep_fin": job.opts.sweep_fin,
+                "shadow_no_reload": job.opts.shadow_no_reload, "ext_fail_at": job.opts.ext_fail_at});
+            let t0 = std::time::Instant::now();
+            let sum = replay::run(&job);
+            let dir = args.get("replay-dir", "/verif/replays");
+            std::fs::create_dir_all(&dir).ok();
+            let mut vio = Vec::new();
+            for v in &sum.violations {
+                let mut j = v.to_json(&prop);
+                j["opts"] = opts_json.clone();
+                let h = refgroup::HashKind::Sha256.hash(&[serde_json::to_string(&j).unwrap().as_bytes()]);
+                let path = format!("{}/{}-{}.json", dir, prop, hex::encode(&h[..6]));
+                std::fs::write(&path, serde_json::to_string_pretty(&j).unwrap()).unwrap();
+                vio.push(json!({"replay": path, "suite": v.suite, "kind": v.kind, "detail": v.detail,
+                                "behaviour_index": v.behaviour, "step": v.step,
+                                "event": v.events[v.step]}));
+            }
+            let summary = json!({
+                "behaviours": beh.len(),
+                "suites": sel.iter().map(|s| s.name()).collect::<Vec<_>>(),
+                "profiles": profiles.iter().map(|p| p.describe()).collect::<Vec<_>>(),
+                "executions": sum.executions,
+                "nontrivial": sum.nontrivial,
+                "sweep_evaluations": sum.sweep_evals,
+                "events": sum.events,
+                "accepting_steps": sum.accepts,
+                "rejecting_steps": sum.rejects,
+                "discarded_noninjective": sum.discarded,
+                "violations": vio,
+                "wall_s": t0.elapsed().as_secs_f64(),
+            });
+            if out_path.is_empty() {
+                println!("{}", serde_json::to_string_pretty(&summary).unwrap());
+            } else {
+                let mut f = std::fs::File::create(&out_path).unwrap();
+                f.write_all(serde_json::to_string(&summary).unwrap().as_bytes()).unwrap();
+            }
+        }
+        "record" => {
+            // direction B: drive the real code, write the trace for TLC
+            let sel = select_suites(&all, &args.get("suites", "quick"), seed);
+            let segments = args.num("segments", 4) as usize;
+            let steps = args.num("steps", 40) as usize;
+            let adv = args.num("adversarial", 35);
+            let out = args.get("out", "/verif/work/trace.ndjson");
+            let driver = args.get("driver", "random");
+            let profiles = conc::profiles(seed, false);
+            let mut f = std::io::BufWriter::new(std::fs::File::create(&out).unwrap());
+            let mut total = 0usize;
+            let mut problems = Vec::new();
+            let mut samples = Vec::new();
+            let mut segs = 0usize;
+            for (si, s) in sel.iter().enumerate() {
+                let mut rng = record::Prng(seed.wrapping_mul(1000003).wrapping_add(si as u64));
+                for g in 0..segments {
+                    let prof = profiles[(si + g) % profiles.len()].clone();
+                    let mut r = record::Recorder::new(*s, seed.wrapping_add((si * 1000 + g) as u64), prof);
+                    match driver.as_str() {
+                        "random" => r.random_segment(&mut rng, steps, adv),
+                        other => panic!("unknown driver {other}"),
+                    }
+                    if r.w.atoms_collide() {
+                        continue;
+                    }
+                    r.reset();
+                    for (i, p) in &r.problems {
+                        problems.push(json!({"suite": s.name(), "segment": g, "event": i, "problem": p}));
+                    }
+                    if samples.len() < 3 {
+                        samples.push(json!({"suite": s.name(), "recorded_events": r.events.iter().rev().skip(1).take(3).collect::<Vec<_>>()}));
+                    }
+                    for e in &r.events {
+                        writeln!(f, "{}", serde_json::to_string(e).unwrap()).unwrap();
+                    }
+                    total += r.events.len();
+                    segs += 1;
+                }
+            }
+            f.flush().unwrap();
+            println!("{}", json!({"trace": out, "events": total, "segments": segs,
+                "suites": sel.iter().map(|s| s.name()).collect::<Vec<_>>(), "problems": problems, "samples": samples}));
+        }
+        other => {
+            eprintln!("unknown command {other:?}");
+            std::process::exit(2);
         }
     }
 }
